@@ -46,7 +46,7 @@ pub const META: PropertyMeta = PropertyMeta {
 pub fn def() -> PropertyDef {
     PropertyDef {
         meta: META,
-        shards: |t| t.pick(5, 11),
+        shards: |t| t.pick(5, 12),
         run,
         replay,
         timeout_s: |t| t.pick(900, 3 * 3600),
@@ -89,6 +89,10 @@ pub struct Case {
     pub changes: Vec<Change>,
     pub revoke_via: RevokeVia,
     pub file: Vec<u8>,
+    /// device 2 is trusted in the CreateSet the account is created from
+    /// (true) or by a later sync of the device log (false)
+    #[serde(default)]
+    pub trust_in_create_set: bool,
 }
 
 fn change_strategy() -> impl Strategy<Value = Change> {
@@ -117,9 +121,10 @@ fn case_strategy(flip_backend: bool) -> impl Strategy<Value = Case> {
             Just(RevokeVia::UpdateSet)
         ],
         proptest::collection::vec(any::<u8>(), 1..600),
+        any::<bool>(),
     )
         .prop_map(
-            move |(sqlite, key_seed, initial_notes, extra_folder, changes, revoke_via, file)| Case {
+            move |(sqlite, key_seed, initial_notes, extra_folder, changes, revoke_via, file, trust_in_create_set)| Case {
                 sqlite: sqlite ^ flip_backend,
                 key_seed,
                 initial_notes,
@@ -127,6 +132,7 @@ fn case_strategy(flip_backend: bool) -> impl Strategy<Value = Case> {
                 changes,
                 revoke_via,
                 file,
+                trust_in_create_set,
             },
         )
 }
@@ -639,8 +645,8 @@ impl World {
             )?;
             if r.status != 200 {
                 return Err(Failure::new(
-                    "harness/second-device-not-trusted",
-                    format!("device 2 (trusted, synced) got {} for GET status", r.status),
+                    "control-refused/second-device-after-trust-sync",
+                    format!("device 2 (trusted in the device log, synced) got {} for a correctly signed GET status", r.status),
                 ));
             }
         }
@@ -1135,6 +1141,16 @@ async fn setup(case: &Case, case_hash: u64, out: &mut Outcome) -> Res<World> {
     } else {
         None
     };
+    if case.trust_in_create_set {
+        let trust = DeviceEvent::Trust(TrustedDevice::new(d2.public_key(), None, None));
+        hb(
+            a.account
+                .patch_devices_unchecked(&[trust])
+                .await
+                .map_err(|e| e.to_string()),
+            "patch_devices",
+        )?;
+    }
     // create A and B on the server (hand-signed PUT)
     for acct in [&a, &b] {
         let body = hb(acct.create_set_body().await, "create_set_body")?;
@@ -1168,25 +1184,27 @@ async fn setup(case: &Case, case_hash: u64, out: &mut Outcome) -> Res<World> {
         phase: "before-revocation",
         note_counter: 0,
     };
-    // trust device 2 locally and sync it to the server
-    let trust = DeviceEvent::Trust(TrustedDevice::new(w.d2.public_key(), None, None));
-    hb(
-        w.a.account
-            .patch_devices_unchecked(&[trust])
-            .await
-            .map_err(|e| e.to_string()),
-        "patch_devices",
-    )?;
-    let remote = w.server_status().await?;
-    let (_, body) = hb(w.a.sync_packet_body(remote).await, "sync_packet_body")?;
-    let r = w
-        .valid(&RawRequest::new(Method::PATCH, routes::ACCOUNT).with_signed_body(body))
-        .await?;
-    if !r.is_2xx() {
-        return Err(Failure::new(
-            "harness/control-refused/PATCH /sync/account (trust device 2)",
-            format!("sync of the device log returned {}", r.status),
-        ));
+    if !case.trust_in_create_set {
+        // trust device 2 locally and sync it to the server
+        let trust = DeviceEvent::Trust(TrustedDevice::new(w.d2.public_key(), None, None));
+        hb(
+            w.a.account
+                .patch_devices_unchecked(&[trust])
+                .await
+                .map_err(|e| e.to_string()),
+            "patch_devices",
+        )?;
+        let remote = w.server_status().await?;
+        let (_, body) = hb(w.a.sync_packet_body(remote).await, "sync_packet_body")?;
+        let r = w
+            .valid(&RawRequest::new(Method::PATCH, routes::ACCOUNT).with_signed_body(body))
+            .await?;
+        if !r.is_2xx() {
+            return Err(Failure::new(
+                "harness/control-refused/PATCH /sync/account (trust device 2)",
+                format!("sync of the device log returned {}", r.status),
+            ));
+        }
     }
     let snap = w.snap().await?;
     let d2_hex = hex::encode(w.d2.public_key().as_ref());
@@ -1197,8 +1215,8 @@ async fn setup(case: &Case, case_hash: u64, out: &mut Outcome) -> Res<World> {
         .unwrap_or(false);
     if !trusted {
         return Err(Failure::new(
-            "harness/second-device-not-trusted",
-            "device 2 is not in the server's device set after the sync".to_string(),
+            "control-refused/second-device-after-trust-sync",
+            "device 2 was trusted in the device log and the log reached the server (CreateSet or sync), but it is not in the server's device set (harness bug, or the server does not refresh its cached device set)".to_string(),
         ));
     }
     let _ = out;
@@ -1816,6 +1834,11 @@ fn run_case(case: &Case, mode: Mode) -> (CaseInfo, Vec<Failure>, Outcome) {
     info.inner_evals = out.records.len() as u64;
     info.class(if case.sqlite { "server-backend/sqlite" } else { "server-backend/fs" });
     info.class(format!("revoke-via/{:?}", case.revoke_via));
+    info.class(if case.trust_in_create_set {
+        "trust-via/create-set"
+    } else {
+        "trust-via/sync"
+    });
     info.class(format!("controls-effective/{}-of-{}", out.control_changed, out.controls));
     (info, failures, out)
 }
@@ -1850,8 +1873,8 @@ fn run(shard: &Shard, rep: &mut Report) {
     silence_stdout();
     rep.exhaustive = Some(true);
     let side: RefCell<(Vec<ReqRecord>, Vec<String>, bool)> = RefCell::new((vec![], vec![], false));
-    let total_routes = shard.tier.pick(4, 20);
-    let total_access = shard.tier.pick(1, 2);
+    let total_routes = shard.tier.pick(4, 33);
+    let total_access = shard.tier.pick(1, 3);
     // the access-file cases go to the last shards
     let access_share = {
         let rev = Shard {
@@ -1878,7 +1901,7 @@ fn run(shard: &Shard, rep: &mut Report) {
                     let everywhere = n.starts_with("observation:")
                         || n.starts_with("all-devices-revoked:")
                         || n.starts_with("access-file controls");
-                    if (!everywhere || shard.index == 0 || shard.index + 1 == shard.count)
+                    if (!everywhere || shard.index == 0)
                         && !s.1.contains(&n)
                     {
                         s.1.push(n);
